@@ -1193,6 +1193,10 @@ def _slacks(prog, fn, loop, case_values):
           (a, c), = v.t.items()
           if a[0] == 'aggmin' and c == 1:
             out[st.targets[0].id] = a[1].form
+          elif a[0] == 'aggmin' and c < 0:
+            # sign * reduce_min(E) with a negative sign is -min(E) = max(-E):
+            # the direction was applied OUTSIDE the reduction
+            out['!' + st.targets[0].id] = (st, c)
   run(loop.body)
   return out
 
@@ -1245,7 +1249,18 @@ def check_A4(prog, res, rule='A4'):
   for kind, sname, acase, pname, pcase, half, rev in table:
     if kind not in loops:
       raise AnalysisError('assert_constraints: loop over %s vanished' % kind)
-    sl = _slacks(prog, af, loops[kind], acase).get(sname)
+    sls = _slacks(prog, af, loops[kind], acase)
+    sl = sls.get(sname)
+    if sl is None and '!' + sname in sls:
+      st_, c_ = sls['!' + sname]
+      res.violation(rule, 'assert:%s.%s%s|direction-outside-reduction' % (
+          kind, sname, acase or ''), af.loc(st_),
+                    'for %s the slack `%s` is %s * reduce_min(...): the '
+                    'direction multiplies the RESULT of the reduction, so the '
+                    'assertion tests the largest instead of the smallest '
+                    'slack and passes unless every cell violates' % (
+                        acase, sname, c_))
+      continue
     if sl is None:
       raise AnalysisError('assert_constraints: slack %s of %s not found' % (
           sname, kind))
